@@ -47,6 +47,12 @@ std::string narrow_show(std::basic_string<Ch> const &t)
       r += "\\r";
     else if (c == Ch(' '))
       r += "_";
+    else if (static_cast<unsigned long>(c) < 0x20 || static_cast<unsigned long>(c) >= 0x7f)
+    {
+      char b[16];
+      std::snprintf(b, sizeof b, "\\x%lX", static_cast<unsigned long>(c) & (sizeof(Ch) == 1 ? 0xFFUL : 0xFFFFFFFFUL));
+      r += b;
+    }
     else
       r += static_cast<char>(c);
   }
@@ -275,15 +281,19 @@ void systematic(std::basic_string<Ch> const &t, std::string const &e, vf::rng *g
   }
 }
 
+// bytes: false = the alphabet the property names; true = characters whose value is special somewhere else (NUL, the
+// top bit, 0xFF - the byte whose char value equals traits::to_char_type(eof()) - and for wchar_t U+00FF / U+FFFF)
 template <class Ch>
-void exhaustive(unsigned maxlen)
+void exhaustive(unsigned maxlen, bool bytes = false)
 {
   using Str = std::basic_string<Ch>;
-  std::string e = std::string("stream<") + cn<Ch>() + ">/exhaustive";
+  std::string e = std::string("stream<") + cn<Ch>() + ">/exhaustive" + (bytes ? "-byte-values" : "");
   if (!vf::entry_enabled(e))
     return;
   vf::set_entry(e);
-  Ch const alpha[4] = {Ch('a'), Ch('\n'), Ch(' '), Ch('\t')};
+  Ch const alpha_text[4] = {Ch('a'), Ch('\n'), Ch(' '), Ch('\t')};
+  Ch const alpha_bytes[4] = {static_cast<Ch>(sizeof(Ch) == 1 ? 0xFF : 0xFFFF), Ch('\n'), Ch(0), static_cast<Ch>(sizeof(Ch) == 1 ? 0x80 : 0xFF)};
+  Ch const *const alpha = bytes ? alpha_bytes : alpha_text;
   std::uint64_t idx = 0;
   for (unsigned len = 0; len <= maxlen; ++len)
   {
@@ -317,14 +327,15 @@ void random_texts(std::uint64_t total, bool via_file)
     return;
   vf::set_entry(e);
   std::uint64_t per = total / vf::opts().nparts + 1;
-  Ch const alpha[7] = {Ch('a'), Ch('\n'), Ch(' '), Ch('\t'), Ch('\r'), Ch('b'), Ch('\n')};
+  Ch const alpha[11] = {Ch('a'), Ch('\n'), Ch(' '), Ch('\t'), Ch('\r'), Ch('b'), Ch('\n'), static_cast<Ch>(sizeof(Ch) == 1 ? 0xFF : 0xFFFF), Ch(0),
+                        static_cast<Ch>(0x80), static_cast<Ch>(0xFE)};
   for (std::uint64_t h = 0; h < per; ++h)
   {
     vf::rng g(vf::seed_for(e, h));
     std::size_t len = g.below(via_file ? 200 : 60) + 1;
     Str t;
     for (std::size_t k = 0; k < len; ++k)
-      t += alpha[g.below(7)];
+      t += alpha[g.below(11)];
     if (!vf::begin_case("seed=%" PRIu64 " part=%u h=%" PRIu64 " text=\"%s\"", vf::opts().seed, vf::opts().part, h, narrow_show(t).c_str()))
       continue;
     vf::sample_case(1);
@@ -570,6 +581,8 @@ void body()
     vf::require_bucket(b);
   exhaustive<char>(vf::tier<unsigned>(7, 12));
   exhaustive<wchar_t>(vf::tier<unsigned>(6, 10));
+  exhaustive<char>(vf::tier<unsigned>(5, 8), true);
+  exhaustive<wchar_t>(vf::tier<unsigned>(4, 7), true);
   random_texts<char>(vf::tier<std::uint64_t>(3000, 200000), false);
   random_texts<wchar_t>(vf::tier<std::uint64_t>(2000, 100000), false);
   random_texts<char>(vf::tier<std::uint64_t>(600, 20000), true);
